@@ -37,6 +37,9 @@ class CoordId:
         return f"{self.kind}{list(self.parts)}" if self.parts else self.kind
 
 
+KEPT = {}     # key of a kept[...] identity -> (extent of the selection, extent of the full coordinate)
+
+
 class LCoord:
     """a coordinate variable: 1-d labelled array over its own dim"""
 
@@ -475,6 +478,8 @@ class LDA:
         self._force("where(drop=True)")
         ext = {d: named_ext(fresh("kept_" + d)) for d in self._dims}
         co = {d: LCoord(d, CoordId("kept", c.cid), ext[d], c.index_kind, c.levels) for d, c in self._coords.items() if d in self._dims}
+        for d, c in co.items():
+            ctx().notes.setdefault("kept", {})[(c.cid.key, ext[d].name)] = (ext[d], self._ext[d])
         for d in self._dims:
             ctx().facts.append(ext[d].z <= self._ext[d].z)
             ctx().facts.append(ext[d].z >= 0)
